@@ -2442,8 +2442,7 @@ class CencSampleAuxiliaryData(ObjectWithFields):
         self.position = dest.tell()
         d = FieldWriter(self, dest)
         d.write(None, 'initialization_vector')
-        if ((parent.flags & self.UseSubsampleEncryption) == self.UseSubsampleEncryption and
-                self.subsamples):
+        if (parent.flags & self.UseSubsampleEncryption) == self.UseSubsampleEncryption:
             d.write('H', 'subsample_count', value=len(self.subsamples))
             for samp in self.subsamples:
                 samp.encode(dest)
@@ -2496,8 +2495,12 @@ class CencSampleEncryptionBox(FullBox):
         return rv
 
     def encode_fields(self, dest):
-        if len(self.samples) > 0:
-            self.flags |= 0x02
+        # UseSubsampleEncryption changes the layout of every sample entry,
+        # so it can only be set when subsample data is present
+        for samp in self.samples:
+            if samp.subsamples:
+                self.flags |= 0x02
+                break
         super().encode_fields(dest)
 
     def encode_box_fields(self, dest):
